@@ -20,7 +20,7 @@
         (`shutdown.wu_zero`) — so `used + c.w ≤ max_weight` still holds at the add
         (`C17_layerB_add_fits`: at `kw.insert` / `wu.add`, `used + c.w ≤ cfg.maxWeight`).  A stale free space carried
         through `sample.init` / `sample.fill` is covered as well (`cr_wOk`).
-        (`used ≤ max_weight` is NOT an invariant: an `UpdateWeight` may push the total above the limit — C02.)
+        (`used ≤ max_weight` is not what is proved: an `UpdateWeight` is not checked against the limit.)
      The three theorems of NoPanic.lean WITHOUT `hu`:
      `C17_layerB_space_overflow_only_after_shutdown_reach`, `C17_layerB_space_overflow_needs_negative_total_reach`,
      `C17_layerB_space_overflow_total_negative_reach`.
@@ -30,7 +30,7 @@
         `C17_layerB_closed`, and INSTEAD of `NoSpaceOverflow`:
             `NoShutdownIssued run`  (no issued request is `shutdown`)  ∧  `0 ≤ cfg.maxWeight`  ∧  `cfg.maxWeight ≤ i64Max`.
         Then the run is a `ValidRunB`.  Proof: no `shutdown` issued ⇒ the flag stays clear and no client is inside
-        `shutdown()` (`NoShut`, run invariant) ⇒ `0 ≤ used` (`BInv.used_nonneg`) and `used ≤ i64::MAX` (`CRInv`) ⇒
+        `shutdown()` (`CrShut`, run invariant) ⇒ `0 ≤ used` (`BInv.used_nonneg`) and `used ≤ i64::MAX` (`CRInv`) ⇒
         `Adm.spaceOverflow = false` at every `wu.space`; everything else as in `cinv_pre`.
      `C17_layerB_closed_running_no_panic`, `C17_layerB_closed_running_inputs` (every hypothesis on the inputs: `Valued`).
      WHICH HYPOTHESES MENTION `maxWeight`: none of `Bounded` (`(N + 1) * (W + ttlEntry * N) ≤ i64::MAX` bounds weights and
@@ -38,15 +38,15 @@
         `0 ≤ cfg.maxWeight ≤ i64Max`.  So the theorem is NOT vacuous at `maxWeight = i64::MAX`:
      `crRun` — limit 9223372036854775807, `put_with_weight(1, 100, 3)`, `put_with_weight(2, 101, 1)`, `delete(1)`, all
         executed (30 actions) — satisfies every hypothesis of `C17_layerB_closed_running_inputs` (`crRun_hyps`, by
-        `decide`), does NOT satisfy `NoSpaceOverflow` for any bounds, and the theorem is applied to it
-        (`crRun_no_panic`).
+        `decide`), does NOT satisfy `NoSpaceOverflow` — no run of a cache with that limit does, unless
+        `N * (W + ttlEntry * N) ≤ 0` (`cr_noSpaceOverflow_vacuous`) — and the theorem is applied to it (`crRun_no_panic`).
 
   3  LAYER A: `C17_run_no_panic_from_init`
      `C17_run_no_panic` (Properties/C17.lean) asks `Ev.pre`, whose worker clause contains the STATE condition
      `s.adm.Sound`.  `Ev.cr_pre` is `Ev.pre` without it (the caller-side conditions and the worker's two `i64` / time
      conditions); for runs from `State.init cfg now seeds` with `0 ≤ cfg.maxWeight ≤ i64Max`, `Sound` holds at every
      state: `Inv` (Lemmas/Inv.lean) gives all of it but `used ≤ i64::MAX`, which is `C17_layerA_used_le_i64Max`
-     (a Layer A invariant, by `step_effect`).  Non-vacuity: `crRunA` (limit `i64::MAX`, a put executed).
+     (a Layer A invariant, by `step_effect`).  Non-vacuity: `crRunA_no_panic` (limit `i64::MAX`, a put called and executed).
 
   Nothing here is false or partial.
 -/
@@ -211,7 +211,7 @@ theorem cr_cinv_pre {cfg : Cfg} {T C : Nat} {W RB AB MB : Int} {a : Act} {o : Or
 theorem cr_closed_aux {cfg : Cfg} {T C : Nat} {W RB AB MB : Int} (hE : 0 ≤ cfg.ttlEntry) (hM : 0 ≤ W + AB)
     (hMax : W + AB ≤ i64Max) (hMB : MB ≤ i64Max) (hT : (addTime C T).isSome = true)
     (hc0 : 0 ≤ cfg.maxWeight) (hcI : cfg.maxWeight ≤ i64Max) :
-    ∀ (tr : List (Act × Oracle)) (b b' : BState), CInv cfg T C W RB AB MB tr b → BInv b → CRInv b → NoShut b →
+    ∀ (tr : List (Act × Oracle)) (b b' : BState), CInv cfg T C W RB AB MB tr b → BInv b → CRInv b → CrShut b →
       (∀ r ∈ issued tr, reqOk cfg T (fun x => RB < x ∧ x ≤ W) r) → NoShutdownIssued tr → NoValueMissing b tr →
       RunB b tr b' → ValidRunB b tr b' := by
   intro tr
@@ -324,7 +324,7 @@ theorem C17_layerB_closed_running_inputs {W T C N : Nat} {cfg : Cfg} {now : Nat}
     weights; the limit an `i64`) -/
 theorem C17_layerB_running_total {cfg : Cfg} {now : Nat} {seeds : List Nat} {clients : Nat}
     (hcI : cfg.maxWeight ≤ i64Max) :
-    ∀ (run : List (Act × Oracle)) (b b' : BState), Reach cfg now seeds clients b → NoShut b → NoShutdownIssued run →
+    ∀ (run : List (Act × Oracle)) (b b' : BState), Reach cfg now seeds clients b → CrShut b → NoShutdownIssued run →
       RunB b run b' → b'.g.shutting = false ∧ 0 ≤ b'.g.adm.used ∧ b'.g.adm.used ≤ i64Max := by
   intro run
   induction run with
@@ -343,6 +343,14 @@ theorem C17_layerB_running_total {cfg : Cfg} {now : Nat} {seeds : List Nat} {cli
       exact hnsi r (by simp [issued])
 
 /-! ### non-vacuity at `maxWeight = i64::MAX` -/
+
+/-- **`C17_layerB_closed` is vacuous at the limit `i64::MAX`**: `NoSpaceOverflow W N cfg` fails for every pair of bounds
+    that admits a request of positive weight (`0 < N * (W + ttl_ticker_entry_size * N)`). -/
+theorem cr_noSpaceOverflow_vacuous {W N : Nat} {cfg : Cfg} (hmax : cfg.maxWeight = i64Max)
+    (hpos : 0 < (N : Int) * ((W : Int) + cfg.ttlEntry * (N : Int))) : ¬ NoSpaceOverflow W N cfg := by
+  intro h
+  have := h.2
+  omega
 
 /-- limit `i64::MAX` (`c17BigCfg`), one client: `put_with_weight(1, 100, 3)` executed (6 worker actions),
     `put_with_weight(2, 101, 1)` executed, `delete(1)` executed (4 worker actions).  30 actions, 3 requests. -/
@@ -512,6 +520,7 @@ theorem crRunA_no_panic :
     .cons (o := {}) (show (0 : Int) < 3 by decide) rfl
       (.cons (o := {}) (o' := {}) hpre2 (rfl : step crA1 .worker {} = .ok (_, _, _)) (.nil _))
   obtain ⟨h1, h2⟩ := C17_run_no_panic_from_init (by decide) (by decide) hrun
-  exact ⟨rfl, _, _, _, hrun, rfl, rfl, rfl, h1, (h2 _ _ (by simp)).1, (h2 _ _ (by simp)).2⟩
+  exact ⟨rfl, _, _, _, hrun, rfl, rfl, rfl, h1, (h2 _ _ (List.Mem.head _)).1,
+    (h2 _ _ (List.Mem.tail _ (List.Mem.head _))).2⟩
 
 end Cached
